@@ -14,7 +14,7 @@ from __future__ import annotations
 import asyncio
 from typing import Any
 
-from vf.core import Collector, Ctx, hyp_explore, jdump
+from vf.core import Collector, Ctx, StopExploration, hyp_explore, jdump
 
 RULE = (
     "A case = a controller configuration (any subset of zones 00-0B; class radiator / zone-valve / electric / mixing per "
@@ -361,6 +361,10 @@ def explore(job: dict) -> dict:
                          "schema_requests": obs["n_schema_requests"], "lost": obs["n_lost"], "ran_s": obs["ran_s"]})
         for sig, d in judge(case, obs):
             col.violation(sig, case, d)
+        # a case that does not converge costs a full 26-50 h horizon: once this worker holds three, more of them add nothing
+        if sum(v["count"] for v in col.violations.values()) >= 3:
+            col.note("worker stopped early after 3 violating cases")
+            raise StopExploration()
 
     hyp_explore(config_strategy()(job.get("size", "any")), body, job["n"], job["seed"])
     return col.dump()
